@@ -43,9 +43,44 @@ def enc_tokens(raw):
     return " ".join(out)
 
 
+def safe_tokenize(text):
+    """list of real tokens, or None if the tokenizer of the tree under test raises"""
+    declast, _ = mods()
+    try:
+        return list(declast.tokenize(text))
+    except Exception:  # noqa
+        return None
+
+
 def real_kinds(text):
     declast, _ = mods()
-    return " ".join(t.typ for t in declast.tokenize(text))
+    try:
+        return " ".join(t.typ for t in declast.tokenize(text))
+    except Exception as e:  # noqa
+        return "raise:%s:%s" % (type(e).__name__, " ".join(str(e).split())[:80])
+
+
+def guarded(ctx, phase, fn, *args, **kw):
+    """Run one phase of a check.  An exception escaping from it must never take the check down: an internal
+    exception raised inside shroud is a failing input of C17's kind; anything else (a diagnostic raised where the
+    harness did not expect one, or a harness defect) is recorded as a broken tie for that phase, and the
+    implementation-only oracles that follow still run."""
+    import traceback
+    try:
+        return fn(*args, **kw)
+    except (KeyboardInterrupt, MemoryError):
+        raise
+    except BaseException as e:  # noqa
+        tb = traceback.extract_tb(e.__traceback__)
+        in_shroud = [f for f in tb if os.sep + "shroud" + os.sep in f.filename and common.REPO in f.filename]
+        tail = " <- ".join("%s:%d %s" % (os.path.basename(f.filename), f.lineno, f.name) for f in tb[-4:])
+        what = "%s: %s [%s]" % (type(e).__name__, " ".join(str(e).split())[:200], tail)
+        if in_shroud and not isinstance(e, (RuntimeError, SystemExit)):
+            site = in_shroud[-1]
+            ctx.fail("internal:%s:%s:%s" % (type(e).__name__, os.path.basename(site.filename), site.name),
+                     "internal exception in shroud during harness phase %r: %s" % (phase, what), {"kind": "phase", "phase": phase})
+        ctx.tie_broken("harness-phase:" + phase, what)
+        return None
 
 
 # ------------------------------------------------------------------ canonical structure
